@@ -88,7 +88,7 @@ def handler(spec):
 
 
 def interpret(case, ctx):
-    sim = U.Sim(tape=[], granularity="blocking", max_steps=60000)
+    sim = U.Sim(tape=[], granularity="blocking", max_steps=20000)
     try:
         with sim:
             _run(case, ctx, sim)
